@@ -29,7 +29,11 @@ func init() {
 		res := &Result{Command: "acrace", Seed: *seed, Rule: "each lookup of an ActionResult whose only referenced blob is absent locally and in the backend is one execution of the schedule; non-trivial = the backend worker was consulted; distinct by iteration"}
 		// one P: the backend worker runs cancel() and wg.Done() back to back before the
 		// request goroutine looks at its select - the schedule of the TLC counterexample
-		if n := os.Getenv("VH_PROCS"); n != "" { var k int; fmt.Sscan(n, &k); runtime.GOMAXPROCS(k) }
+		if n := os.Getenv("VH_PROCS"); n != "" {
+			var k int
+			fmt.Sscan(n, &k)
+			runtime.GOMAXPROCS(k)
+		}
 		p := drv.NewFakeProxy()
 		f, err := fe.New(fe.Opts{Proxy: p})
 		if err != nil {
@@ -82,7 +86,55 @@ func init() {
 			res.Violations = append(res.Violations, drv.Violation{Prop: "C06", What: fmt.Sprintf("action-cache hit although the referenced blob is absent locally and in the backend (%d of %d lookups; fail-fast cancellation lost against the wait group)", hits, *iters)})
 		}
 		res.Samples = append(res.Samples, map[string]any{"lookups": *iters, "hits": hits, "schedule": "Take(w); Answer(w): cancel, Done; Wait sees both ready"})
+		// the opposite window: the waiter is not held back, the worker is slow around its log line (an access log on a
+		// slow device): whatever the worker does after telling the wait group must not matter to the answer
+		disk.VerifSetGate(nil)
+		p2 := drv.NewFakeProxy()
+		f2, err := fe.New(fe.Opts{Proxy: p2, AccessLog: slowWriter{}})
+		if err != nil {
+			res.Error = err.Error()
+			writeResult(*resPath, res)
+			return 2
+		}
+		defer f2.Close()
+		present := drv.MkBlob([]byte(fmt.Sprintf("present-%d", *seed)))
+		if err := f2.Cache.Put(ctx, cache.CAS, present.Hash, int64(len(present.Data)), bytes.NewReader(present.Data)); err != nil {
+			res.Error = err.Error()
+			writeResult(*resPath, res)
+			return 2
+		}
+		ar2 := &pb.ActionResult{OutputFiles: []*pb.OutputFile{{Path: "p", Digest: &pb.Digest{Hash: present.Hash, SizeBytes: int64(len(present.Data))}},
+			{Path: "o", Digest: &pb.Digest{Hash: absent.Hash, SizeBytes: 500}}}, ExecutionMetadata: &pb.ExecutedActionMetadata{Worker: "w"}}
+		data2, _ := proto.Marshal(ar2)
+		if err := f2.Cache.Put(ctx, cache.AC, key, int64(len(data2)), bytes.NewReader(data2)); err != nil {
+			res.Error = err.Error()
+			writeResult(*resPath, res)
+			return 2
+		}
+		hits2, n2 := 0, *iters/3+20
+		for i := 0; i < n2; i++ {
+			r, _, err := f2.Cache.GetValidatedActionResult(ctx, key)
+			if err != nil {
+				continue
+			}
+			res.Cases++
+			res.Nontrivial++
+			if r != nil {
+				hits2++
+			}
+		}
+		if hits2 > 0 {
+			res.Violations = append(res.Violations, drv.Violation{Prop: "C06", What: fmt.Sprintf("action-cache hit although a referenced blob is absent locally and in the backend (%d of %d lookups with a slow access log: the waiter saw the wait group drained before the miss was recorded)", hits2, n2)})
+		}
 		writeResult(*resPath, res)
 		return 0
 	})
+}
+
+// slowWriter is an access log on a slow device.
+type slowWriter struct{}
+
+func (slowWriter) Write(b []byte) (int, error) {
+	time.Sleep(2 * time.Millisecond)
+	return len(b), nil
 }
